@@ -146,7 +146,8 @@ var letsBad = []string{"let q = nosuch", "let = 5", "let w = (", "let a.b = 1", 
 var queries = []string{"T | where a == x | take lim", "T | count", "T | where s == 'a;b' // c;d\n| take 1", "T\n| project a, b\n| sort by a", "U | join (T) on k | where x > 1", "T | extend z = y * 2",
 	"T | where a == -y", "T | top lim by a", "T | where t and a in (x, y)", "T | summarize n = count() by k | where n > x", "T | where b == \"q;\\\"\"", "`T;1` | take 1", "T | extend a+x", "T | where c == s", "T | project s, z", "T | where a == x | take lim"}
 var invalid = []string{"T | where (", "T | bogus", "!", "T | take 1.5", "T | where 'unterminated\n", "T U", "T | where a ==", "| count", "T | join (U) on"}
-var seps = []string{"; ", ";\n", ";\n\n// a comment; with a semicolon\n", " ;\n", ";\r\n", ";\n   \n", "; // trailing comment\n", ";\t"}
+var seps = []string{"; ", ";\n", ";\n\n// a comment; with a semicolon\n", " ;\n", ";\r\n", ";\n   \n", "; // trailing comment\n", ";\t",
+	" // comment before the semicolon\n;\n", "\n;\n", "\n\n  ;  ", " //c\n\n;", "\t// x ; y\n ;\n"}
 
 // chainScript: lets that depend on earlier lets, then queries that use the
 // last link, with unrelated statements interleaved.
@@ -366,7 +367,7 @@ func run(c *mon.Custom) {
 	}
 	wg.Wait()
 
-	deliveries := []string{"stdin", "file", "multi", "dash", "outfile"}
+	deliveries := []string{"stdin", "file", "multi", "dash", "outfile", "manyfiles"}
 	type job struct {
 		i int
 		d string
@@ -456,6 +457,16 @@ func checkDelivery(c *mon.Custom, cli string, s *Script, e *Expect, delivery str
 		ps := cut(3)
 		args = []string{write("a.pql", ps[0]), "-", write("c.pql", ps[2])}
 		stdin = ps[1]
+	case "manyfiles":
+		// the script cut in two with a long run of empty files (and some blank ones) in between
+		ps := cut(2)
+		args = append(args, write("first.pql", ps[0]))
+		nEmpty := []int{1, 50, 99, 100, 101, 150, 300}[rng.Intn(7)]
+		write("empty.pql", "")
+		for i := 0; i < nEmpty; i++ {
+			args = append(args, "empty.pql")
+		}
+		args = append(args, write("last.pql", ps[1]))
 	case "outfile":
 		args = []string{"-o", "out.sql", write("script.pql", text)}
 		outFile = filepath.Join(dir, "out.sql")
